@@ -201,6 +201,13 @@ func c12EntryMutations(rng *rand.Rand, base map[string]interface{}, valid cid.Ci
 			}
 		})
 	}
+	// every pair of absent fields (two optional fields missing together)
+	for i, f1 := range fields {
+		for _, f2 := range fields[i+1:] {
+			f1, f2 := f1, f2
+			add("absent-subset:pair:"+f1+"+"+f2, func(m map[string]interface{}) { delete(m, f1); delete(m, f2) })
+		}
+	}
 	// nested structs
 	for _, n := range names {
 		n := n
